@@ -640,7 +640,13 @@ pub fn gen_reader_input(kind: RKind, g: &mut Rng, size: u32, cfg: &mut Rng) -> (
                 }
                 1 => {
                     ip_number = 51;
-                    encode(WKind::Auth, &Value::Auth(Box::new(gen_auth(g, size, next))))
+                    let mut b = encode(WKind::Auth, &Value::Auth(Box::new(gen_auth(g, size, next))));
+                    if g.chance(1, 5) && b.len() >= 8 {
+                        // length octet 0: for the skip functions an 8-byte header
+                        b[1] = 0;
+                        b.truncate(8);
+                    }
+                    b
                 }
                 2 => {
                     // not an extension header: nothing must be consumed
@@ -810,6 +816,13 @@ fn gen_raw_chain(g: &mut Rng, size: u32, with_skippable_only_kinds: bool) -> (u8
                     1 => g.usize_range(0, 2),
                     _ => g.usize_range(0, 12),
                 };
+                if with_skippable_only_kinds && g.chance(1, 8) {
+                    // length octet 0 (8 bytes for the skip functions)
+                    out.push(next);
+                    out.push(0);
+                    out.extend_from_slice(&g.bytes(6));
+                    continue;
+                }
                 out.push(next);
                 out.push((words + 1) as u8);
                 out.extend_from_slice(&g.bytes(2 + 8 + words * 4));
@@ -960,8 +973,20 @@ pub fn damaged_variants_full(
             // dictionary damage: a protocol constant (ether type, ARPHRD
             // value, ip number, ICMP type, length edge) instead of a random
             // byte - exact 16-bit values are out of reach of bit flips
-            let i = aux.usize_range(0, s.len().min(24) - 1);
-            if aux.bool() && i + 1 < s.len() {
+            let mut i = aux.usize_range(0, s.len().min(24) - 1);
+            // the 16-bit type fields of the fixed link headers more often
+            let typed: &[usize] = match kind {
+                RKind::Sll => &[0, 2, 14],
+                RKind::Eth => &[12],
+                RKind::Vlan => &[2],
+                RKind::Arp => &[0, 2, 6],
+                _ => &[],
+            };
+            let force16 = !typed.is_empty() && aux.bool();
+            if force16 {
+                i = *aux.pick(typed);
+            }
+            if (force16 || aux.bool()) && i + 1 < s.len() {
                 let v = dict16(aux);
                 s[i] = (v >> 8) as u8;
                 s[i + 1] = v as u8;
